@@ -23,7 +23,10 @@ EXPLANATION = (
     're-raises only when examples were already produced. R4 collection continues with the next calldef. R5 VARIANT: every while-loop reachable '
     'from parse (outside the vendored tokenizer) has a recognised variant: consumption of the finite line iterator on every iteration path, or an '
     'integer named in the loop test with a constant lower bound that strictly decreases on every path (a two-variable difference bound '
-    'discharges "assigned from a smaller variable"); for-loops never grow the list they iterate. Termination inside tokenize / ast.parse / re is trusted.')
+    'discharges "assigned from a smaller variable"); for-loops never grow the list they iterate. Termination inside tokenize / ast.parse / re is trusted. '
+    'R7 the constructor (and str) of DoctestParseError reads from its arguments only what every exception object has, unless under an isinstance/hasattr guard: '
+    'it is built inside the wrapping handler from any caught exception. R8 the source line table static collection indexes with ast line numbers is split '
+    'with str.splitlines, whose line ends are a superset of the tokenizer\'s.')
 DECIDES = ['ESCAPE(parse)', 'containment handler shape', 'style dispatch extent', 'collection continues', 'loop VARIANTs']
 NOT_DECIDED = ['termination of the vendored CPython tokenizer, ast.parse and re (trusted)', 'exceptions of property getters']
 
@@ -66,8 +69,114 @@ def _default_summaries(ctx):
 
 
 def run(ctx):
-    for fn in (r1_escape_parse, r2_containment, r3_style_dispatch, r4_collection_continues, r5_variants, r6_directives_checked_at_parse_time):
+    for fn in (r1_escape_parse, r2_containment, r3_style_dispatch, r4_collection_continues, r5_variants, r6_directives_checked_at_parse_time,
+               r7_error_constructor_total, r8_line_table_covers_ast_lines):
         ctx.rep.rule(fn, ctx)
+
+
+BASE_EXCEPTION_ATTRS = {'args', 'with_traceback', 'add_note', '__class__', '__traceback__', '__cause__', '__context__', '__doc__', '__dict__', '__module__'}
+
+
+def r7_error_constructor_total(ctx):
+    """the wrapping handler of parse builds DoctestParseError from ANY caught exception (`except Exception as orig_ex`): the constructor must
+    not assume more about its arguments than that -- an attribute only some exception classes have (SyntaxError.msg, .lineno, OSError.errno)
+    raises AttributeError inside the handler, and that AttributeError, not the library's parse error, leaves parse"""
+    rep = ctx.rep
+    cls = ctx.cls(DPE)
+    n_uses = 0
+    for mname in ('__init__', '__str__', '__repr__'):
+        if mname not in cls.methods:
+            continue
+        f = cls.methods[mname]
+        g = ctx.cfg(f)
+        dom = ctx.dom(g, g.entry)
+        params = [a.arg for a in f.node.args.posonlyargs + f.node.args.args + f.node.args.kwonlyargs][1:]
+        recv = f.node.args.args[0].arg
+        subjects = set(params)
+        if mname != '__init__':
+            subjects = set()
+        # in every method: what was stored from a constructor argument is as unknown as the argument
+        stored = {}
+        fi = cls.methods.get('__init__')
+        if fi is not None:
+            ip = [a.arg for a in fi.node.args.args][1:]
+            for x in ast.walk(fi.node):
+                if isinstance(x, ast.Assign) and isinstance(x.value, ast.Name) and x.value.id in ip:
+                    for t in x.targets:
+                        if isinstance(t, ast.Attribute) and is_name(t.value, fi.node.args.args[0].arg):
+                            stored[t.attr] = x.value.id
+        for n in g.nodes:
+            if n.dup or n.kind not in ('stmt', 'test') or not isinstance(n.ast, ast.AST):
+                continue
+            for x in ast.walk(n.ast):
+                base = None
+                if isinstance(x, (ast.Attribute, ast.Subscript)) and isinstance(x.ctx, ast.Load):
+                    v = x.value
+                    if isinstance(v, ast.Name) and v.id in subjects:
+                        base = v.id
+                    elif isinstance(v, ast.Attribute) and is_name(v.value, recv) and v.attr in stored and stored[v.attr] not in ('msg',):
+                        base = recv + '.' + v.attr
+                if base is None or base == 'msg':
+                    continue
+                n_uses += 1
+                attr = x.attr if isinstance(x, ast.Attribute) else '[...]'
+                facts = graph.guard_facts(dom, n)
+                guarded = any(fa.polarity is True and isinstance(fa.expr, ast.Call) and getattr(fa.expr.func, 'id', None) in ('isinstance', 'hasattr')
+                              and fa.expr.args and ast.unparse(fa.expr.args[0]) == ast.unparse(x.value) for fa in facts)
+                # short-circuit guard in the same expression: `hasattr(e, 'msg') and e.msg`
+                guarded = guarded or any(fa.polarity is True and isinstance(fa.expr, ast.Call) and getattr(fa.expr.func, 'id', None) in ('isinstance', 'hasattr')
+                                         and fa.expr.args and ast.unparse(fa.expr.args[0]) == ast.unparse(x.value) for fa in graph.short_circuit_facts(n.ast, x))
+                ok = guarded or (isinstance(x, ast.Attribute) and attr in BASE_EXCEPTION_ATTRS)
+                rep.ob('C14.R7', ctx.loc(f, x), ctx.src(x), ok,
+                       'defined for every exception object' if ok else
+                       '%s.%s reads %s from a value that can be any exception the parser caught (or None-checked only): for a failure that is not of that class this raises '
+                       'AttributeError/TypeError inside the handler of parse, which then escapes instead of DoctestParseError' % (cls.name, mname, attr), anchor=f.qualname)
+    fi = cls.methods.get('__init__')
+    need(fi is not None, 'C14.R7: DoctestParseError.__init__ not found')
+    rep.ob('C14.R7', ctx.loc(fi, fi.node), 'uses of the wrapped exception / payload inside DoctestParseError', True,
+           '%d attribute or item read(s) on constructor arguments, each reported above' % n_uses, nontrivial=False, anchor=fi.qualname)
+
+
+def r8_line_table_covers_ast_lines(ctx):
+    """static collection indexes its table of source lines with line numbers taken from the ast. The tokenizer ends a line at \\n, \\r\\n and a lone
+    \\r; the table must be split at least there (str.splitlines does, split('\\n') does not), or a module with a stray carriage return in
+    a docstring makes the table shorter than the numbers used to index it: IndexError out of collection, which no handler downgrades"""
+    rep = ctx.rep
+    V = 'xdoctest.static_analysis.TopLevelVisitor'
+    cls = ctx.cls(V)
+    stores = []
+    reads = 0
+    for f in cls.methods.values():
+        recv = f.node.args.args[0].arg if f.node.args.args else None
+        if recv is None:
+            continue
+        for x in walk_scope(f.node):
+            if isinstance(x, ast.Assign):
+                for t in x.targets:
+                    if isinstance(t, ast.Attribute) and is_name(t.value, recv) and t.attr == 'sourcelines':
+                        stores.append((f, x))
+            if isinstance(x, ast.Attribute) and x.attr == 'sourcelines' and is_name(x.value, recv) and isinstance(x.ctx, ast.Load):
+                reads += 1
+    rep.floor('C14.R8', 'reads of the source line table', reads, 2)
+    real = [(f, x) for (f, x) in stores if not (isinstance(x.value, ast.Constant) and x.value.value is None)]
+    rep.floor('C14.R8', 'definitions of the source line table', len(real), 1)
+    for (f, x) in real:
+        v = x.value
+        kind = None
+        if isinstance(v, ast.Call) and isinstance(v.func, ast.Attribute):
+            if v.func.attr == 'splitlines':
+                kind = 'splitlines'
+            elif v.func.attr == 'split' and v.args and isinstance(v.args[0], ast.Constant) and v.args[0].value in ('\n', '\r\n'):
+                kind = 'split-lf'
+            elif v.func.attr == 'split' and not is_name(v.func.value, 're') and not v.args:
+                kind = 'split-ws'
+        need(kind is not None, 'C14.R8: the source line table is built by %s, a splitter this rule does not know' % ctx.src(v, 80))
+        ok = kind == 'splitlines'
+        rep.ob('C14.R8', ctx.loc(f, x), ctx.src(x), ok,
+               'str.splitlines ends a line wherever the tokenizer does (and in a few more places), so every ast line number is a valid index' if ok else
+               'the line table is split at %s only, but ast line numbers also count a lone carriage return as a line end: with a \\r inside a docstring the table is shorter '
+               'than the line numbers used to index it (IndexError during collection, not contained by any handler)' % ('newline characters' if kind == 'split-lf' else 'whitespace'),
+               anchor=f.qualname)
 
 
 def _debug_guarded(facts):
@@ -627,6 +736,11 @@ from ..selftest import fire, silent      # noqa: E402
 PA = 'xdoctest/parser.py'
 CO = 'xdoctest/core.py'
 VARIANTS = [
+    fire('parse-error-reads-syntaxerror-msg', 'C14.R7', ('xdoctest/exceptions.py', "        super(DoctestParseError, self).__init__(msg)\n", "        if orig_ex is not None:\n            msg = '{}: {}'.format(msg, orig_ex.msg)\n        super(DoctestParseError, self).__init__(msg)\n")),
+    silent('parse-error-reads-msg-of-syntaxerrors-only', ('xdoctest/exceptions.py', "        super(DoctestParseError, self).__init__(msg)\n", "        if isinstance(orig_ex, SyntaxError):\n            msg = '{}: {}'.format(msg, orig_ex.msg)\n        super(DoctestParseError, self).__init__(msg)\n")),
+    silent('parse-error-formats-the-exception', ('xdoctest/exceptions.py', "        super(DoctestParseError, self).__init__(msg)\n", "        if orig_ex is not None:\n            msg = '{}: {}'.format(msg, orig_ex)\n        super(DoctestParseError, self).__init__(msg)\n")),
+    fire('line-table-split-on-newline-only', 'C14.R8', ('xdoctest/static_analysis.py', "        self.sourcelines = self.source.splitlines()\n", "        self.sourcelines = self.source.split('\\n')\n")),
+    silent('line-table-keepends', ('xdoctest/static_analysis.py', "        self.sourcelines = self.source.splitlines()\n", "        self.sourcelines = self.source.splitlines(True)\n")),
     fire('handler-narrowed-to-syntaxerror', 'C14.R1', (PA, "        except Exception as orig_ex:\n\n            if labeled_lines is None:", "        except SyntaxError as orig_ex:\n\n            if labeled_lines is None:")),
     fire('labelling-moved-out-of-try', 'C14.R1',
          (PA, "        try:\n            labeled_lines = self._label_docsrc_lines(string)\n", "        labeled_lines = self._label_docsrc_lines(string)\n        try:\n")),
